@@ -79,6 +79,7 @@ def queries(tier):
     for be in (["c64"] if tier == "quick" else ["c64", "c32", "direct", "x86asm"]):
         qs.append(q(2, be, 33, form="I"))
         qs.append(q(4, be, 7, outlen=9, form="I"))
-        qs.append(q(7, be, 1, outlen=32, klen=1, fam=0, form="I"))
+        if tier == "thorough":
+            qs.append(q(7, be, 1, outlen=32, klen=1, fam=0, form="I"))      # ~200 s
         qs.append(q(7, be, 1, outlen=32, klen=1, fam=1, form="I"))
     return qs
